@@ -20,7 +20,10 @@ import (
 func SendServiceUsageRequest(
 	ue *chf_context.ChfUe, sur *charging_datatype.ServiceUsageRequest,
 ) (*charging_datatype.ServiceUsageResponse, error) {
-	ue.RatingMux.Handle("SUA", HandleSUA(ue.RatingChan))
+	// the answer to this request arrives on a channel of its own: an answer nobody waits for any more
+	// is dropped instead of reaching a later request or blocking the handler
+	answer := make(chan *diam.Message, 1)
+	ue.RatingMux.Handle("SUA", HandleSUA(answer))
 	rfDiameter := factory.ChfConfig.Configuration.RfDiameter
 	addr := rfDiameter.HostIPv4 + ":" + strconv.Itoa(rfDiameter.Port)
 	conn, err := ue.RatingClient.DialNetworkTLS(rfDiameter.Protocol, addr, rfDiameter.Tls.Pem, rfDiameter.Tls.Key)
@@ -51,7 +54,7 @@ func SendServiceUsageRequest(
 	}
 
 	select {
-	case m := <-ue.RatingChan:
+	case m := <-answer:
 		var sua charging_datatype.ServiceUsageResponse
 		if errMarshal := m.Unmarshal(&sua); errMarshal != nil {
 			return nil, fmt.Errorf("Failed to parse message from %v", errMarshal)
@@ -66,6 +69,9 @@ func HandleSUA(rgChan chan *diam.Message) diam.HandlerFunc {
 	return func(c diam.Conn, m *diam.Message) {
 		logger.RatingLog.Tracef("Received SUA from %s", c.RemoteAddr())
 
-		rgChan <- m
+		select {
+		case rgChan <- m:
+		default:
+		}
 	}
 }
